@@ -185,8 +185,11 @@ impl<E> CQueue<E> {
                 if let Some(i) = self.zero_event_bucket.iter().position(|v| v.2 == handle.id) {
                     self.zero_event_bucket.remove(i);
                     self.len -= 1;
+                    return;
                 }
-            } else {
+            }
+
+            {
                 let time_mod = handle.time.as_nanos().rem(self.t_all);
 
                 let index = time_mod / self.t_nanos;
